@@ -43,16 +43,14 @@ theorem evTotal_pulses (ds : List Nat) : evTotal (ds.map Ev.pulse) = sumN ds := 
   | nil => rfl
   | cons d r ih => simp [evTotal, sumN_cons, ih]
 
-/-- A block of a "plain" tape: no declared level, never enters the merge loop, and the
-table path's truncation is a bit boundary. -/
+/-- A block of a "plain" tape: no declared level, never enters the merge loop. -/
 def PlainBlock (b : Block) : Prop :=
-  b.timings.polarity = none ∧ ByteBlock b ∧
-  (b.timings.zero.length = b.timings.one.length ∨ 8 ≤ b.timings.usedBits)
+  b.timings.polarity = none ∧ ByteBlock b
 
 theorem stepBlock_plain (pol : Int) (l : Bool) (b : Block) (s : St) (hb : PlainBlock b) :
     (stepBlock pol l b s).edges = s.edges ++ playEvents s.t (blockEvents l b) ∧
     (stepBlock pol l b s).t = s.t + evTotal (blockEvents l b) := by
-  obtain ⟨hpol, hbyte, hu⟩ := hb
+  obtain ⟨hpol, hbyte⟩ := hb
   unfold stepBlock
   have h0 : (setKeys b s).edges = s.edges ∧ (setKeys b s).t = s.t := ⟨rfl, rfl⟩
   generalize setKeys b s = s0 at h0
@@ -83,7 +81,7 @@ theorem stepBlock_plain (pol : Int) (l : Bool) (b : Block) (s : St) (hb : PlainB
         · exact hz
         · exact absurd hb hd
       have he := dataPhase_edges pol l b s1 hd
-      rw [he.1, he.2, dataCore_fast _ _ _ _ _ hz, fastSeq_eq_spec _ _ _ _ hd hu]
+      rw [he.1, he.2, dataCore_fast _ _ _ _ _ hz, fastSeq_eq_spec _ _ _ _ hd]
       refine ⟨?_, ?_⟩ <;>
         simp only [ne_eq, hd, not_false_eq_true, ↓reduceIte, hpol, checkPolarity, playEvents_pulses, evTotal_pulses]
   generalize dataPhase pol l b s1 = s2 at h2
